@@ -13,12 +13,20 @@ REPO="${VERIF_REPO:-/repo}"
 export VERIF_REPO_DIR="$REPO"
 H="$VERIF_DIR/harness"
 
+# property -> (package under harness/cmd, build kind)
 case "$ID" in
-  C10|C21|C22|C23|C27|C28|C29|C30|C31|C33) ENGINE=puremon ;;
-  C08|C09|C11|C12|C13|C14|C15|C19|C20|C24|C25) ENGINE=refmon ;;
-  C07|C17|C18|C26|C32) ENGINE=concmon ;;
-  C01|C02|C03|C04|C05|C06|C34|C35) ENGINE=crashlab ;;
-  C16) ENGINE=fsguard ;;
+  C10) PKG=pure_tick; KIND=pure ;;
+  C21|C22|C23) PKG=pure_candle; KIND=pure ;;
+  C27|C28|C29) PKG=pure_wire; KIND=pure ;;
+  C30|C31|C33) PKG=pure_time; KIND=pure ;;
+  C08|C09) PKG=ref_store; KIND=ref ;;
+  C11|C12|C13) PKG=ref_query; KIND=ref ;;
+  C14|C15) PKG=ref_schema; KIND=ref ;;
+  C19|C20) PKG=ref_sql; KIND=ref ;;
+  C24|C25) PKG=ref_repl; KIND=ref ;;
+  C07|C17|C18|C26|C32) PKG=concmon; KIND=conc ;;
+  C01|C02|C03|C04|C05|C06|C34|C35) PKG=crashlab; KIND=crash ;;
+  C16) PKG=fsguard; KIND=fs ;;
   *) echo "unknown property $ID" >&2; exit 2 ;;
 esac
 
@@ -40,32 +48,30 @@ build() { # build <out> <pkg> [flags...]
 }
 
 export VERIF_BIN="$SCR/bin"
-case "$ENGINE" in
-  puremon)
-    build puremon ./cmd/puremon -gcflags=all=-d=checkptr
-    if [ "$TIER" = thorough ]; then
-      case "$ID" in C27|C28|C29) build puremon-asan ./cmd/puremon -asan ;; esac
-    fi
+case "$KIND" in
+  pure)
+    build "$PKG" "./cmd/$PKG" -gcflags=all=-d=checkptr
+    if [ "$TIER" = thorough ] && [ "$PKG" = pure_wire ]; then build "$PKG-asan" "./cmd/$PKG" -asan; fi
     ;;
-  refmon)
-    if [ "$TIER" = thorough ]; then build refmon ./cmd/refmon -race; else build refmon ./cmd/refmon -gcflags=all=-d=checkptr; fi
+  ref)
+    if [ "$TIER" = thorough ]; then build "$PKG" "./cmd/$PKG" -race; else build "$PKG" "./cmd/$PKG" -gcflags=all=-d=checkptr; fi
     ;;
-  concmon)
-    build concmon ./cmd/concmon -race
+  conc)
+    build "$PKG" "./cmd/$PKG" -race
     ;;
-  crashlab)
+  crash)
     build crashlab ./cmd/crashlab
     build wlchild ./cmd/wlchild
     build recchild ./cmd/recchild
     if [ "$ID" = C06 ] && [ "$TIER" = thorough ]; then build recchild-asan ./cmd/recchild -asan; fi
     ;;
-  fsguard)
+  fs)
     build fsguard ./cmd/fsguard
     build fschild ./cmd/fschild
     ;;
 esac
 
-"$SCR/bin/$ENGINE" "$ID" --tier "$TIER" "$@"
+"$SCR/bin/$PKG" "$ID" --tier "$TIER" "$@"
 RC=$?
 
 if [ $# -eq 0 ] && [ $RC -ne 2 ]; then
